@@ -49,6 +49,14 @@ class ProgGen:
         if k < 0.35:
             v = self.pick_var("int")
             if v:
+                q = r.random()
+                if q < 0.06:
+                    return f"load('{v}')"
+                if q < 0.12:
+                    # the raw value of a computed variable is the computed object itself: compute it explicitly
+                    return f"loadRaw('{v}').compute()" if v.startswith("cv") else f"loadRaw('{v}')"
+                if q < 0.18 and v.startswith("cv"):
+                    return f"&{v}.compute()"
                 return v
         if k < 0.6:
             op = r.choice(["+", "-", "*", "/", "%", "+", "-", "*"])
@@ -264,7 +272,7 @@ class ProgGen:
         if k < 0.82:
             a = self.pick_var("arr")
             if a:
-                return r.choice([f"{a}[0] = {self.e_int(2)}", f"{a}.push({self.e_int(2)})", f"{a}[0:1] = {self.e_arr(2)}", f"{a}.pop()", f"{a}[0:2:]", f"{a}[1::]", f"{a}[0:2:1]", f"{a}[::]"])
+                return r.choice([f"{a}[0] = {self.e_int(2)}", f"{a}.push({self.e_int(2)})", f"{a}[0:1] = {self.e_arr(2)}", f"{a}.pop()", f"{a}.shift()", f"{a}[0:2:]", f"{a}[1::]", f"{a}[0:2:1]", f"{a}[::]"])
         if k < 0.88:
             dv = self.pick_var("dict")
             if dv:
